@@ -23,14 +23,22 @@ REQUIRED_ACTIONS = [
 ]
 
 
-def explore(tier, tag, only="", extra_objects=None, lowered_name=None):
+def explore(tier, tag, only="", extra_objects=None, lowered_name=None, faults="0", fault_every=1, nprof=None):
     t = dict(TIERS[tier])
     if only:
         t["nshards"], t["workers"] = 1, 4
+    if nprof is not None:
+        t["nprof"] = nprof
+    t["faults"], t["fault_every"] = faults, fault_every
     ldir, lw, corpus = wire.prepare(lowered_name or ("lowered-" + tag), extra_objects)
     outdir = os.path.join(C.WORK, "wire-" + tag)
+    const_path = None
+    if faults == "c04":
+        const_path, ivs, cres = wire.const_sized(ldir, tag)
+        t["const_sized_roots"] = sum(1 for r in ivs if r["lo"] == r["hi"])
     stats, paths = wire.run_wire(ldir, outdir, nshards=t["nshards"], workers=t["workers"], nprof=t["nprof"],
-                                 maxlen=t["maxlen"], only=only, deep=t["deep"], timeout=t["timeout"], tag=tag)
+                                 maxlen=t["maxlen"], only=only, deep=t["deep"], timeout=t["timeout"], tag=tag,
+                                 faults=faults, fault_every=fault_every, const_path=const_path)
     cov = {}
     for s in stats:
         for k, val in s["coverage"].items():
@@ -43,8 +51,9 @@ def explore(tier, tag, only="", extra_objects=None, lowered_name=None):
             "coverage": cov, "outdir": outdir}
 
 
-def replay_codec(binary, ctx, jobs=8):
-    """Replays every codec record. Also gathers skip records. Returns (non-ok verdicts, totals)."""
+def replay_codec(binary, ctx, jobs=8, kinds=("codec",), extra_args=None, timeout=600):
+    """Replays every record whose kind is in `kinds`. Also gathers skip records.
+    Returns (non-ok verdicts, totals)."""
     skips = collections.Counter()
     skipped_msgs = collections.defaultdict(set)
     roots_seen = set()
@@ -60,12 +69,14 @@ def replay_codec(binary, ctx, jobs=8):
                 skips[r["why"]] += 1
                 skipped_msgs[r["why"]].add("%s/%s" % (r["name"], r["exp"]))
                 continue
+            if r["kind"] not in kinds:
+                continue
             n_codec += 1
             if len(samples) < 3 and len(r["body"]) > 6:
-                samples.append({k: r[k] for k in ("name", "exp", "lv", "dir", "prof", "hdr", "body", "regions")})
+                samples.append({k: r[k] for k in ("kind", "name", "exp", "lv", "dir", "prof", "hdr", "body", "regions", "fk", "site", "outcome", "val") if k in r})
             yield json.dumps(r, separators=(",", ":"))
 
-    verdicts, totals = R.run_records(binary, ["codec"], lines(), jobs=jobs)
+    verdicts, totals = R.run_records(binary, ["codec"] + (extra_args or []), lines(), jobs=jobs, timeout=timeout)
     ctx["skips"] = skips
     ctx["skipped_msgs"] = {k: sorted(v)[:40] for k, v in skipped_msgs.items()}
     ctx["roots_seen"] = roots_seen
@@ -87,8 +98,12 @@ def signature(o):
 
 
 def observation(o):
-    return {"name": o.get("name"), "exp": o.get("exp"), "lv": o.get("lv"), "dir": o.get("dir"),
-            "verdict": o.get("verdict"), "sig": signature(o)}
+    ob = {"name": o.get("name"), "exp": o.get("exp"), "lv": o.get("lv"), "dir": o.get("dir"),
+          "verdict": o.get("verdict"), "sig": signature(o)}
+    if "fk" in o:
+        ob["fk"] = o.get("fk")
+        ob["site"] = o.get("site")
+    return ob
 
 
 def replay_body(o, ctx):
